@@ -119,6 +119,35 @@ impl FileDesc {
             )));
         }
 
+        // Refuse FEC parameters for which no block encoder can be built: the encoder error would
+        // otherwise only show up during the transfer, where the object is silently never sent
+        let (a_large, a_small, _, nb_blocks) = partition::block_partitioning(
+            oti.maximum_source_block_length as u64,
+            object.transfer_length,
+            oti.encoding_symbol_length as u64,
+        );
+        if nb_blocks > 0 {
+            match oti.fec_encoding_id {
+                oti::FECEncodingID::ReedSolomonGF28
+                | oti::FECEncodingID::ReedSolomonGF28UnderSpecified
+                    if oti.max_number_of_parity_symbols == 0 =>
+                {
+                    return Err(FluteError::new(
+                        "Reed-Solomon FEC requires at least one parity symbol",
+                    ));
+                }
+                oti::FECEncodingID::Raptor
+                    if [a_large, a_small].iter().any(|k| *k == 2 || *k == 3) =>
+                {
+                    return Err(FluteError::new(format!(
+                        "Object transfer length of {} gives source blocks of {} or {} symbols, Raptor FEC cannot encode blocks of 2 or 3 symbols",
+                        object.transfer_length, a_large, a_small
+                    )));
+                }
+                _ => {}
+            }
+        }
+
         if oti.fec_encoding_id == oti::FECEncodingID::RaptorQ
             || oti.fec_encoding_id == oti::FECEncodingID::Raptor
         {
